@@ -12,7 +12,7 @@ EXPLANATION = (
     "that inserted; (R3) in every user-facing function that inserts into the Store every error exit after the insertion "
     "passes Ptr::remove; (R4) Index/IndexMut/remove on the Store compare the stored stream id with the key's id and diverge "
     "otherwise, and nothing else indexes the slab; (R5) OpaqueStreamRef is constructed only behind Stream::ref_inc and "
-    "its Drop reaches the decrement; (R6) the idle client closes: maybe_close_connection_if_no_streams -> go_away_now on "
+    "its Drop reaches the decrement; (R7 = C05.R3) every path that closes a stream or pops it from a connection queue runs Counts::transition_after, which is what evaluates is_released and removes the record; (R6) the idle client closes: maybe_close_connection_if_no_streams -> go_away_now on "
     "!has_streams_or_other_references before polling. That nothing at all is retained is NOT decided."
 )
 NOT_DECIDED = "that nothing is retained (buffers inside the codec, Bytes clones); the successful completion of the connection future"
@@ -290,3 +290,5 @@ def run(ctx):
     r4_key_guard(ctx)
     r5_refcounts(ctx)
     r6_idle_client(ctx)
+    from . import C05
+    C05.r3_transition_discipline(ctx, 'C19.R7')
